@@ -112,8 +112,22 @@ def gen_scene(rng, no_contacts=False):
     for k in range(int(rng.integers(1, 3))):
       geoms.append(rand_geom(f'g{b}_{k}', b))
   mode = rng.random()
-  emode = 'per-geom' if mode < 0.6 else 'tuple' if mode < 0.85 else 'scalar' if mode < 0.95 else 'default'
-  if mode < 0.6:
+  emode = ('per-geom' if mode < 0.5 else 'scalar+tuple' if mode < 0.6 else 'tuple' if mode < 0.85 else 'scalar' if mode < 0.95
+           else 'default')
+  if 0.5 <= mode < 0.6:
+    # a non-zero scalar default AND a <tuple> overriding some geoms, boundary values included (a perfectly inelastic geom:
+    # prm = 0 exactly); unlisted geoms keep the scalar
+    e0 = float(np.round(rng.uniform(0.05, 0.9), 3))
+    es, elems = [], ''
+    for gi, g in enumerate(geoms):
+      if gi == 0 or rng.random() < 0.5:
+        e = 0.0 if (gi == 0 or rng.random() < 0.4) else float(np.round(rng.uniform(0.0, 0.9), 3))
+        elems += f'<element objtype="geom" objname="{g["name"]}" prm="{e!r}"/>'
+      else:
+        e = e0
+      es.append(e)
+    custom = f'<custom><numeric name="elasticity" data="{_f(e0)}"/><tuple name="elasticity">{elems}</tuple></custom>'
+  elif mode < 0.6:
     es = [float(np.round(rng.uniform(0, 0.9), 3)) for _ in geoms]
     custom = f'<custom><numeric name="elasticity" data="{_f(es)}"/></custom>'
   elif mode < 0.85:
